@@ -11,12 +11,12 @@ Open Scope Z_scope.
 (* a writer opened on an empty directory *)
 Definition st_fresh (n : Z) : pstate :=
   {| ps_t := init_state; ps_epoch_n := [(0, O)]; ps_segdocs := []; ps_disk := disk_empty;
-     ps_pol := pol_init n; ps_base := []; ps_safe := []; ps_acked := []; ps_faulted := false |}.
+     ps_pol := pol_init n; ps_base := []; ps_safe := []; ps_acked := []; ps_faulted := false; ps_grabbed := None |}.
 
 Lemma fresh_start_ok : forall table n, 1 <= n -> start_ok table n (st_fresh n).
 Proof.
   intros table n Hn. unfold start_ok. simpl.
-  split; [exact Hn|]. split; [reflexivity|]. split; [reflexivity|]. split; [reflexivity|]. split.
+  split; [exact Hn|]. split; [reflexivity|]. split; [reflexivity|]. split; [reflexivity|]. split; [|split; [reflexivity|]].
   - constructor; simpl; try reflexivity; try constructor; intros; contradiction.
   - left. auto.
 Qed.
